@@ -338,6 +338,11 @@ def _oracle(case, res):
                 elif ch in ('proxy.qs', 'serving.qs', 'environ', 'header', 'resp') and (val is None or tok not in val):
                     bad.append(('request %d (%s) at %s: channel %s lost the request: %r' % (i, tok, st, ch, val),
                                 'token_lost:' + ch))
+            want_mw = 'mw|%s' % case['site']['apps'][plan['app']]['wsgi_tag'] \
+                if case['site']['apps'][plan['app']].get('mw') else 'mwNone'
+            if snap['seen'].get('mw', want_mw) != want_mw:
+                bad.append(('request %d (%s) at %s went through the middleware of another application: %s (own: %s)'
+                            % (i, tok, st, snap['seen'].get('mw'), want_mw), 'app_settings_crossed'))
             if sorted(k for k in snap['serving'] if 'mk' not in k) != ['request', 'response']:
                 bad.append(('request %d (%s) at %s: cherrypy.serving holds %s' % (i, tok, st, snap['serving']),
                             'serving_not_loaded'))
@@ -439,6 +444,10 @@ def _oracle(case, res):
             bad.append(('application %d state changed by requests: %s' % (ai, diff_paths(now, then)),
                         'app_state_changed'))
         ad = case['site']['apps'][ai]
+        names = [x[0] for x in then['pipeline']]
+        if names != ['ExceptionTrapper', 'InternalRedirector'] + (['c10mw'] if ad.get('mw') else []):
+            bad.append(('application %d: WSGI pipeline %s is not what its own configuration says (mw=%s)'
+                        % (ai, names, bool(ad.get('mw'))), 'app_settings_crossed'))
         if ad.get('wsgi_tag'):
             if then['log_tag'] != ad['wsgi_tag'] or then['wsgiconfig'] != {'c10mw': {'tag': ad['wsgi_tag']}}:
                 bad.append(('application %d carries settings of another application: log tag %r, wsgi config %s'
